@@ -116,6 +116,53 @@ def _case(args):
     return out
 
 
+# ---------------------------------------------------------------------------------------------------- the displayed formula
+def _trees(depth, ops=("+", "-", "*", "/")):
+    """every expression tree (left, op, right) of at most `depth` levels, leaves numbered in order of appearance"""
+    if depth == 1: return ["leaf"]
+    sub = _trees(depth - 1, ops)
+    return ["leaf"] + [(a, op, b) for op in ops for a in sub for b in sub]
+
+
+def _printer_chunk(args):
+    """print_tuple_element (the REAL method) on symbolic trees: the text, read with the ordinary precedence of + - * /, must denote the
+    tree it was printed from (evaluated on distinct exact rationals, so a misplaced parenthesis changes the value)"""
+    from fractions import Fraction
+    lo, hi, depth = args
+    trees = _trees(depth)[lo:hi]
+    from efootprint.abstract_modeling_classes.explainable_objects import ExplainableQuantity
+    from efootprint.constants.units import u
+    primes = [3, 5, 7, 11, 13, 17, 19, 23, 29, 31, 37, 41, 43, 47, 53, 59]
+    leaves = [ExplainableQuantity(p * u.dimensionless, f"x{k}") for k, p in enumerate(primes)]
+    printer = leaves[0]
+    fails = []
+    for t in trees:
+        cnt = [0]
+        def inst(x):
+            if x == "leaf":
+                k = cnt[0]; cnt[0] += 1; return leaves[k]
+            return (inst(x[0]), x[1], inst(x[2]))
+        def ev(x):
+            if not isinstance(x, tuple): return Fraction(int(x.value.magnitude))
+            a, b = ev(x[0]), ev(x[2])
+            return {"+": a + b, "-": a - b, "*": a * b, "/": a / b if b != 0 else None}[x[1]] if a is not None and b is not None else None
+        it = inst(t)
+        if not isinstance(it, tuple): continue
+        want = ev(it)
+        if want is None: continue
+        txt = printer.print_tuple_element(it, print_values_instead_of_labels=False)
+        env = {f"x{k}": Fraction(p) for k, p in enumerate(primes)}
+        try:
+            got = eval(txt, {"__builtins__": {}}, env)
+        except ZeroDivisionError:
+            continue
+        except Exception as ex:
+            fails.append(f"displayed-formula-unreadable:{txt}"); continue
+        if got != want: fails.append(f"displayed-formula-denotes-another-value:{txt}")
+        if len(fails) >= 5: break
+    return {"case": f"printer|trees {lo}..{hi} of depth<={depth}", "status": "fails" if fails else "ok", "fails": fails, "stats": {"nodes": len(trees)}}
+
+
 def run(tier, seed, procs=16):
     T = H.topologies()
     items = [("services", "services_system", None, None)]
@@ -125,6 +172,11 @@ def run(tier, seed, procs=16):
         for i in (range(n) if tier == "thorough" else [i for i in range(n) if (i + seed) % 5 == 0]):
             items.append(("core", tname, spec, i))
     res = H.run_parallel(_case, items, procs)
+    depth = 4
+    ntrees = len(_trees(depth))
+    step = 2048
+    pres = H.run_parallel(_printer_chunk, [(k, min(k + step, ntrees), depth) for k in range(0, ntrees, step)], procs)
+    res += pres
     viol, samples, nontrivial = [], [], 0
     tot = {"nodes": 0, "leaves": 0, "leaves_without_source": 0, "attributes": 0}
     for r in res:
@@ -138,7 +190,8 @@ def run(tier, seed, procs=16):
             viol.append({"signature": f"C07|{r['case']}|{f}", "what": f"C07 {r['case']}: {f}", "input": {"case": r["case"]}})
     return {"evaluations": len(res), "distinct_nontrivial": nontrivial,
             "rule": "one case = a computed system (core topologies as built / after one edit, and one system with every builder class); every +,-,*,/ node of every explanation tree of every calculated attribute "
-                    "is re-evaluated from its recorded operands on physical values and dimensions; explain() must return text; leaves must be labelled, input leaves must have a source",
+                    "is re-evaluated from its recorded operands on physical values and dimensions; the formula text printed for an expression tree denotes that tree; explain() must return text; leaves must be labelled, input leaves must have a source",
             "samples": samples, "violations": viol, "exhaustive": False, "nodes_reevaluated": tot["nodes"], "leaves": tot["leaves"],
             "leaves_without_source_reported_not_alarmed": tot["leaves_without_source"], "attributes_explained": tot["attributes"],
-            "bound": f"{len(T)} topologies (+ every fifth / every single edit) + the services system"}
+            "displayed_formula": f"print_tuple_element on ALL {ntrees} expression trees over + - * / with at most {depth} levels (exhaustive for that depth): the text read with ordinary precedence denotes the tree",
+            "bound": f"{len(T)} topologies (+ every fifth / every single edit) + the services system; displayed formulas: all trees of depth <= {depth}"}
